@@ -291,7 +291,13 @@ def tset_body(case):
             refr = np.array([ref_basis(func, xnorm(X[t], True), nc).T.dot(coeff[t]) for t in range(ntr)])
             check(bool(np.all(np.abs(np.asarray(yr, dtype='f8') - refr) <= 1e-9 * max(scale, np.abs(refr).max()))), 'tset:evaluation-ignores-changed-xmin-xmax',
                   lambda: dict(maxdev=float(np.abs(np.asarray(yr, dtype='f8') - refr).max())))
-    # default grid
+    # default grid (asked for twice: whatever the caller does to the arrays of the first answer, the second is a fresh grid)
+    x0_, y0_ = call(traceset2xy, tset)
+    try:
+        x0_ -= 7.5
+        y0_ *= 0
+    except (ValueError, TypeError):
+        pass
     xd, yd = call(traceset2xy, tset)
     with judge('default-grid'):
         xd = np.asarray(xd, dtype='f8')
